@@ -31,6 +31,16 @@ def cases(draw):
     dup = draw(st.booleans())
     accmode = draw(st.sampled_from(["all", "none", "typical", "none"]))
     opts = draw(gen.cvt_options())
+    # SOS sets declared by variable suffixes (.sosno/.ref, or .sos/.sosref as AMPL writes them for its own piecewise-linear
+    # linearisation): the flattener creates top-level SOS1_<id>_/SOS2_<id>_/SOS2_PL_<id>_ constraints whose names enter the
+    # name graph separately (ConstraintKeeper::CopyNames2ValueNodes), and their MIP reformulation derives names from them
+    if len(m.vars) >= 2 and draw(st.integers(0, 3)) == 0:
+        pair = draw(st.sampled_from([("sosno", "ref"), ("sos", "sosref"), ("sos", "sosref")]))
+        ids = draw(st.lists(st.sampled_from([-2, -1, 3, 4]), min_size=len(m.vars), max_size=len(m.vars)))
+        if len(m.vars) >= 3 and draw(st.booleans()):
+            ids = [ids[0]] * len(m.vars)           # one set with >= 3 members: the reformulation creates several items
+        m.suffixes.append(dict(name=pair[0], kind=0, real=False, values={i: g for i, g in enumerate(ids)}))
+        m.suffixes.append(dict(name=pair[1], kind=0, real=True, values={i: F(i + 1) for i in range(len(m.vars))}))
     return m, info, mode, files, base, dup, accmode, opts
 
 
@@ -78,7 +88,9 @@ def judge(n, mode, files, base, dup, accmode, opts, res, known=()):
     onames = [ob["name"] for ob in fm.objs]
     if not requested:
         res.case(common.h(cobj), False, labels=["not-requested"])
-        if vnames is not None or any(cnames) or any(onames):
+        # (the label SOS1_<id>_/SOS2_<id>_/SOS2_PL_<id>_ that the flattener gives a suffix-declared SOS set is part of the constraint
+        # object whatever the names mode; the property speaks of requested names only, so this label is not judged here)
+        if vnames is not None or any(s for s in cnames if not s.startswith(("SOS1_", "SOS2_"))) or any(onames):
             return ("names passed although none were requested (mode %d, files %s): vars %s cons %s" % (mode, files, vnames, cnames[:4]),
                     cobj, "names-not-requested")
         return None
@@ -96,6 +108,9 @@ def judge(n, mode, files, base, dup, accmode, opts, res, known=()):
     if nobj:
         io = nalg + nlog
         orig.append(row[io] if (io < nrow_read and mode <= 2) else "_sobj[1]")
+    sosids = {g for sf in n.suffixes if sf["name"] in ("sosno", "sos") for g in sf["values"].values() if g}
+    orig_only = list(orig)
+    orig = orig + ["%s%d_" % (pfx, g) for g in sorted(sosids) for pfx in ("SOS1_", "SOS2_", "SOS2_PL_")]
     problems = []
     if vnames is None:
         problems.append(("var-names-missing", "names requested but AddVariables received no names"))
@@ -133,10 +148,12 @@ def judge(n, mode, files, base, dup, accmode, opts, res, known=()):
     for i, s in enumerate(onames):
         if not s:
             problems.append(("empty-obj-name", "objective %d has an empty name" % i))
-        elif nobj and s != orig[-1]:
-            problems.append(("obj-name", "objective is called %r, expected %r" % (s, orig[-1])))
+        elif nobj and s != orig_only[-1]:
+            problems.append(("obj-name", "objective is called %r, expected %r" % (s, orig_only[-1])))
     naux = (fm.nvars - nv) + max(0, len(fm.cons) - nalg - nlog)
-    res.case(common.h(cobj), naux >= 2, labels=["mode=%d" % mode, "files=" + files, "acc=" + accmode],
+    res.case(common.h(cobj), naux >= 2, labels=["mode=%d" % mode, "files=" + files, "acc=" + accmode] + (["sos-suffix"] if sosids else []) +
+             (["sos-reformulated"] if sosids and any(s.startswith("SOS") for s in cnames + list(vnames or []))
+              and not any(c.type.startswith("SOS") for c in fm.cons) else []),
              sample=dict(model=nl.show_model(n)[:200], mode=mode, files=files, var_names=(vnames or [])[:8], con_names=cnames[:6]))
     from .. import findings
     for key, desc in problems:
